@@ -19,7 +19,9 @@ ASSUMPTIONS = [
 ]
 MANIFEST = {'text': 'proof (dominators + no intervening store) that every payload slice in the argument iterator is preceded by a length guard on the same bound; '
                     'agreement of the encoder width/type-word table with the decoder tyle->length table.'
-                    " Added: every decoded string passes the CR/LF/TAB replacement; every value narrowed into the encoder's 16-bit length prefix is bounded by 65535 by the dominating guards."}
+                    " Added: every decoded string passes the CR/LF/TAB replacement; every value narrowed into the encoder's 16-bit length prefix is bounded by 65535 by the dominating guards."
+                    ' Added: a single byte of an argument value is read only under len == 1, for BOOL, or for string/raw data - in the renderer and in every helper that receives the argument '
+                    '(multi-byte numbers are decoded from the whole slice in the message byte order); the renderer never casts a float to an integer.'}
 
 ARGIT = 'adlt::dlt::DltMessageArgIterator'
 SER = 'adlt::serde_verb_payload::ser_verb_payload::Serializer'
@@ -54,6 +56,8 @@ def run(F, chk):
     check_float_rendering(F, D5)
     D6 = chk.rule('D6', 'the renderer reads a single byte of an argument value only when the value is one byte long, a BOOL, or string/raw data (multi-byte numbers go through from_be/le_bytes as a whole)')
     check_single_byte_reads(F, D6)
+    D7 = chk.rule('D7', 'string arguments: the text handed to the decoder is the raw value minus at most the one trailing NUL (no search for a NUL inside the string)')
+    check_string_extent(F, D7)
 
 
 def vars_of(e):
@@ -688,3 +692,61 @@ def check_single_byte_reads(F, D6):
                 follow(H, hcfg, hE, hpred, ctx, depth + 1)
     follow(b, cfg, E, in_b, None, 1)
     D6.floor('single-byte reads of the raw argument value in the renderer', n, 3)
+
+
+# ---------------------------------------------------------------------------------------------
+# D7: strings keep everything but one trailing NUL
+
+SEARCH = re.compile(r'(Iterator::position|Iterator::rposition|Iterator::find|Iterator::take_while|Iterator::skip_while|slice::<impl \[T\]>::(split|splitn|rsplit|split_once|rsplitn|starts_with|strip_suffix|strip_prefix)|'
+                    r'memchr\w*|CStr::\w+|str::<impl str>::(find|rfind|split\w*|trim\w*)|slice::<impl \[u8\]>::trim_ascii\w*)$')
+DECODERS = re.compile(r'(String::from_utf8_lossy|String::from_utf8|str::from_utf8|str::from_utf8_unchecked|Encoding::decode\w*)$')
+
+
+def check_string_extent(F, D7):
+    """"strings with one trailing NUL removed": PRS_Dlt allows embedded NULs and says nothing of C-string semantics; the renderer
+    drops exactly one trailing zero byte (zero-terminating senders) and shows everything else.  For every text decoder call in
+    the renderer and its helpers whose input derives from the raw value: the backward provenance of the input contains no
+    search primitive (position / find / split / trim / CStr ..) - the extent is `len` or `len - 1`, never "up to the first NUL"."""
+    from prov import Prov, calls_in
+    import rawreads
+    b = F.get('adlt::dlt::DltMessage::process_msg_arg_iter')
+    if b is None:
+        D7.violation(('anchor-lost', 'process_msg_arg_iter'), 'argument renderer not found')
+        return
+    n = 0
+    bodies = [b]
+    cfg0 = CFG(b)
+    E0 = ExprBuilder(cfg0, fold_named=True)
+    for (cb, H, pred) in rawreads.helper_calls(F, b, E0, lambda sx: 'payload_raw' in sx):
+        if H not in bodies:
+            bodies.append(H)
+    for x in bodies:
+        D7.fn(x.path)
+        cfg = CFG(x)
+        pr = Prov(cfg)
+        for blk in x.calls():
+            t = blk.term
+            if not DECODERS.search(t.callee.path):
+                continue
+            toks = set()
+            for a in t.args:
+                toks |= pr.operand(a, at=blk.i)
+            raw = any(tk[0] == 'fld' and tk[2] == 'payload_raw' for tk in toks) or (x is not b and any(tk[0] == 'param' for tk in toks))
+            if not raw:
+                continue
+            n += 1
+            D7.sites += 1
+            bad = sorted(set(c for c in calls_in(toks) if SEARCH.search(c)))
+            # a helper that computes the slice: its body is part of the provenance
+            for c in calls_in(toks):
+                H = F.get(c)
+                if H is not None and H.crate == 'lib' and H.kind != 'closure' and H.ret_type() in ('&[u8]', '&str'):
+                    hp = Prov(CFG(H))
+                    bad += sorted(set(c2 for c2 in calls_in(hp.origins(0)) if SEARCH.search(c2)))
+                    D7.fn(H.path)
+            if bad:
+                D7.violation(('string-extent-by-search', x.path), 'the text of a string argument handed to %s at %s is delimited by %s: the string is cut at a NUL inside it (or otherwise searched) instead of keeping everything but one trailing NUL' %
+                             (t.callee.path.split('::')[-1], x.loc(t.sp), ', '.join(c.split('::')[-1] + '()' for c in bad[:3])), where=x.loc(t.sp))
+            else:
+                D7.ok(sample={'decoder_call': x.loc(t.sp), 'input': 'raw value, extent not determined by a search'})
+    D7.floor('text decoder calls on the raw value in the renderer', n, 2)
